@@ -131,14 +131,14 @@ func main() {
 			"stream = one leaf per (partner object B, shared buffer.Reader kind) for the stream A|B|A; " +
 			"fragmentation = leaf 0: all reader buffer sizes direct/16/17/100/4096 with the whole data available, then one leaf per chunking class over all buffer sizes ( short reads 1/2/7/9/1000/halves, io.EOF together with data, one (0,nil) read at each position); " +
 			"truncation = one leaf over every decoder and every cut offset (all offsets up to 4 KiB, else first 256 + every 64th + last 8; thorough: all); " +
-			"corruption = one leaf over every decoder and every located header field (each of the first 64 bytes, every small LE u32/u64, every byte of JSON texts) x {0,1,2,0xff,orig+-1,2^63,2^64-1,2^20,2^31,2^32-1} (JSON: 8 bit flips + 3 bytes), allocation-driving lengths probed at 2^19, attributed to the decoder function that reads the field (traced reader calls) and confirmed once per such function above 64 MiB; " +
+			"corruption = one leaf over every decoder and every located header field (each of the first 64 bytes, every small LE u32/u64, every byte of JSON texts) x {0,1,2,0xff,orig+-1,2^63,2^64-1,2^20,2^31,2^32-1} (JSON: 8 bit flips + 3 bytes), allocation-driving lengths probed at 2^19, attributed to the decoder function that reads the field (traced reader calls) and confirmed once per such function above 80 MiB; " +
 			"writer-failure = one leaf per failing writer kind over every failure offset. Fault-point executions run in a helper process so that fatal errors are observations. " +
 			"distinct_nontrivial counts distinct (scenario, environment, observed result) classes.",
 		Assumptions: []string{
 			"back-to-back reads from one stream go through ONE shared reader implementing lattigo's buffer.Reader (bufio.Reader or buffer.Buffer); for a plain io.Reader the library documents a read-ahead bufio wrapper, so only the returned count is checked there",
 			"a bufio.Writer handed to WriteTo belongs to the caller, who flushes it at the end of the stream; a plain io.Writer must have received all bytes when WriteTo returns",
 			"readers follow the io.Reader contract (short reads, n>0 with io.EOF, and single (0,nil) reads are allowed); writers that accept fewer bytes than offered return an error",
-			"a corrupted field may also yield a valid different object (one that marshals, and whose encoding decodes and re-marshals identically); only errors, panics, allocations above 64 MiB + 16*len and unmarshallable results are judged",
+			"a corrupted field may also yield a valid different object (one that marshals, and whose encoding decodes and re-marshals identically); only errors, panics, allocations above 80 MiB + 16*len and unmarshallable results are judged",
 			"equality is the type's own Equal when it takes the type itself, else structural (nil == empty slice/map, big numbers by value), and in every case the re-marshalled bytes must be identical",
 		},
 		Scenarios:      scenarios,
